@@ -44,6 +44,7 @@ def _restore(w, sv, keep_counts=False):
     w.plan = list(sv["plan"])
     w.counter = sv["counter"]
     w.handles.clear()
+    FS.sync_markers()
 
 
 def _plain(w, s, fn):
@@ -191,6 +192,13 @@ def _faulted(w, s, fn, j, n_calls, kind, fault, props, recovery_inline):
         w.count(("fault:storage_error@" + site) if fired else "fault:armed_but_not_reached")
     if fired:
         w.count("fault:outcome_" + ("reported_success" if out.startswith("ok") else "reported_failure" if not crashed else "crash"))
+    if not crashed:
+        for path in pre_dims:
+            replacing = (s["op"] == "ds_write" and s["mode"] == "w") or (s["op"] == "arr_write" and s["mode"] in ("w", "w-")) \
+                or s["op"] in ("unlim_create", "multi_read")
+            if not replacing and not FS.exists(path):
+                raise Violation(_p(w), "fault_keeps", "after an injected %s at storage call %d/%d (%s) of %s (%s): the file %s, which existed before and was only being appended to / read, is gone" % (
+                    kind, j, n_calls, site, s["op"], s.get("mode", "-"), path))
     mark_unknown(w, s, pre_dims)
     for path in list(w.files):
         if not FS.exists(path):
